@@ -237,6 +237,24 @@ Lemma lift_conv (phi : R -> R) {AM : AddMap phi} (F G : Ser) n :
   lift phi (conv F G) n == bigsum (fun p => phi (F (fst p) * G (snd p))) (splits n).
 Proof. unfold lift, conv. apply (am_bigsum phi). Qed.
 
+Lemma lift_conv_closed (phi : R -> R) {AM : AddMap phi} (F G : Ser) :
+  (forall a b, length a = k -> length b = k -> phi (F a * G b) == F a * G b) ->
+  seq_eq (lift phi (conv F G)) (conv F G).
+Proof.
+  intros H n Hn. rewrite (lift_conv (AM := AM)). unfold conv. apply bigsum_ext.
+  intros (a, b) I. cbn [fst snd]. apply splits_length in I. destruct I.
+  apply H; congruence.
+Qed.
+
+Lemma conv_zero_terms (F G : Ser) :
+  (forall a b, length a = k -> length b = k -> F a * G b == 0) ->
+  seq_eq (conv F G) szero.
+Proof.
+  intros H n Hn. unfold conv, szero. apply bigsum_zero.
+  intros (a, b) I. cbn [fst snd]. apply splits_length in I. destruct I.
+  apply H; congruence.
+Qed.
+
 (** * filtration by total degree, order-zero coefficient *)
 Definition sord (m : nat) (f : Ser) : Prop :=
   forall n, length n = k -> (deg n < m)%nat -> f n == 0.
@@ -340,6 +358,7 @@ End Cauchy.
 Arguments am_zero {R ring0 ring1 add mul sub opp ring_eq Ro Rg} phi {AM}.
 Arguments am_sub {R ring0 ring1 add mul sub opp ring_eq Ro Rg} phi {AM} x y.
 Arguments am_bigsum {R ring0 ring1 add mul sub opp ring_eq Ro Rg} phi {AM} {A} F l.
+Arguments lift_conv_closed [k] {R ring0 ring1 add mul sub opp ring_eq Ro Rg} phi {AM} F G _ n _.
 Arguments lift_conv [k] {R ring0 ring1 add mul sub opp ring_eq Ro Rg} phi {AM} F G n.
 Arguments lift_one [k] {R ring0 ring1 add mul sub opp ring_eq Ro Rg} phi {AM} _ n _.
 Arguments sord_lift [k] {R ring0 ring1 add mul sub opp ring_eq Ro Rg} phi {AM} [m f] _ n _ _.
